@@ -44,7 +44,6 @@ package format
 //@ spec func ooxmlMarker(n string) bool = n != "[Content_Types].xml" && (strings.HasPrefix(n, "word/") || strings.HasPrefix(n, "xl/") || strings.HasPrefix(n, "ppt/"))
 //@ func detectZIPFormat results (fm, err)
 //@   property C20
-//@   flags nosafety
 //@   atreturn#4 container_means_epub: f.Name == "META-INF/container.xml"
 //@   atreturn#5 word_marker: strings.HasPrefix(f.Name, "word/") && (forall k int :: {zr.File[k]} 0 <= k && k < len(zr.File) ==> zr.File[k].Name != "META-INF/container.xml") && (forall k int :: {zr.File[k]} 0 <= k && k < $i ==> !ooxmlMarker(zr.File[k].Name))
 //@   atreturn#6 sheet_marker: strings.HasPrefix(f.Name, "xl/") && !strings.HasPrefix(f.Name, "word/") && (forall k int :: {zr.File[k]} 0 <= k && k < len(zr.File) ==> zr.File[k].Name != "META-INF/container.xml") && (forall k int :: {zr.File[k]} 0 <= k && k < $i ==> !ooxmlMarker(zr.File[k].Name))
@@ -62,7 +61,6 @@ package format
 //@ spec func startsZIP(m []byte) bool = len(m) >= 4 && m[0] == 80 && m[1] == 75 && m[2] == 3 && m[3] == 4
 //@ func DetectFromReader results (fm, err)
 //@   property C20
-//@   flags nosafety
 //@   atreturn#2 pdf_only_at_the_start: startsPDF(magic)
 //@   callsite detectZIPFormat(rr, sz) requires startsZIP(magic) && !startsPDF(magic) && sz == size
 //@   atreturn#4 html_after_pdf_and_zip: detectHTMLMagic(magic) && !startsPDF(magic) && !startsZIP(magic)
